@@ -809,3 +809,109 @@ func (e *env) liveness(when string) {
 		}
 	})
 }
+
+// serviceProbe is the model-free counterpart of liveness: whatever happened before (concurrent
+// sessions, abandoned Gets, overlapping Flushes), a fresh session must be served within a bounded
+// simulated time - negotiate, announce more than the server has learnt, one next-hop ADD per network
+// instance programmed, a complete Get(all, ALL) that contains them, a Flush(all) with that id
+// answered OK and an empty Get afterwards. A stuck server is reported by the controller itself.
+func (e *env) serviceProbe(prop, when string) {
+	deadline := 60 * time.Second
+	fail := func(what string) {
+		e.report(prop, "not-serviceable", what+" "+when, e.sim.Describe(), false)
+	}
+	cur, _ := e.srv.VerifElection()
+	id := [2]uint64{0, 1}
+	if cur != nil {
+		if cur.High == ^uint64(0) && cur.Low == ^uint64(0) {
+			return // nothing higher can be announced
+		}
+		id = add128([2]uint64{cur.High, cur.Low}, 1)
+	}
+	mc := e.net.OpenModify()
+	c := 6
+	if e.sc.Cfg.FIBAck {
+		c = 7
+	}
+	mc.Send(&spb.ModifyRequest{Params: comboParams(c)})
+	r, err := mc.RecvTimeout(deadline)
+	if err != nil || r.GetSessionParamsResult().GetStatus() != spb.SessionParametersResult_OK {
+		fail(fmt.Sprintf("a new session could not negotiate (%v %v)", r, err))
+	}
+	mc.Send(&spb.ModifyRequest{ElectionId: uint128(id)})
+	r, err = mc.RecvTimeout(deadline)
+	if err != nil || r.GetElectionId() == nil {
+		fail(fmt.Sprintf("a new session's election announcement was not answered (%v %v)", r, err))
+	}
+	if got := r.GetElectionId(); got.High != id[0] || got.Low != id[1] {
+		fail(fmt.Sprintf("a session announcing more than the server had learnt (%v) was told %v", id, got))
+	}
+	e.maxElec = id
+	nis := append([]string{e.sc.Cfg.Default}, e.sc.Cfg.VRFs...)
+	var ops []*spb.AFTOperation
+	want := map[string]bool{}
+	for i, ni := range nis {
+		ops = append(ops, &spb.AFTOperation{Id: 900000 + uint64(i), NetworkInstance: ni, Op: spb.AFTOperation_ADD, ElectionId: uint128(id),
+			Entry: &spb.AFTOperation_NextHop{NextHop: &aftpb.Afts_NextHopKey{Index: 4000 + uint64(i), NextHop: &aftpb.Afts_NextHop{IpAddress: sv("198.51.100.77")}}}})
+		want[fmt.Sprintf("%s/%d", ni, 4000+i)] = true
+	}
+	mc.Send(&spb.ModifyRequest{Operation: ops})
+	got := map[uint64]spb.AFTResult_Status{}
+	for len(got) < len(ops) {
+		r, err := mc.RecvTimeout(deadline)
+		if err != nil {
+			fail(fmt.Sprintf("a new primary's ADD was not answered (%v)", err))
+		}
+		for _, res := range r.GetResult() {
+			if res.GetId() < 900000 || res.GetId() >= 900000+uint64(len(ops)) {
+				continue // a held operation of an earlier session resolved by these (KF-C06-1 territory, judged elsewhere)
+			}
+			if res.GetStatus() == spb.AFTResult_FAILED {
+				fail(fmt.Sprintf("a new primary's next-hop ADD failed: %v", res))
+			}
+			if res.GetStatus() == spb.AFTResult_RIB_PROGRAMMED {
+				got[res.GetId()] = res.GetStatus()
+			}
+		}
+	}
+	readAll := func(what string) map[string]bool {
+		gc := e.net.OpenGet(&spb.GetRequest{NetworkInstance: &spb.GetRequest_All{All: &spb.Empty{}}, Aft: spb.AFTType_ALL})
+		seen := map[string]bool{}
+		for {
+			gr, err := gc.RecvTimeout(deadline)
+			if err == simnet.ErrTimeout {
+				fail("a Get " + what + " did not complete")
+			}
+			if err != nil {
+				if err.Error() != "EOF" && status.Code(err) != codes.OK {
+					fail("a Get " + what + " failed: " + err.Error())
+				}
+				return seen
+			}
+			for _, en := range gr.GetEntry() {
+				if nh := en.GetNextHop(); nh != nil {
+					seen[fmt.Sprintf("%s/%d", en.GetNetworkInstance(), nh.GetIndex())] = true
+				} else {
+					seen[en.GetNetworkInstance()+"/other"] = true
+				}
+			}
+		}
+	}
+	seen := readAll("after the probe's ADDs")
+	for k := range want {
+		if !seen[k] {
+			fail("the next-hop " + k + " a new primary was told is programmed is not in Get")
+		}
+	}
+	ctx, cancel := context.WithTimeout(context.Background(), deadline)
+	defer cancel()
+	if _, ferr := e.net.Flush(ctx, &spb.FlushRequest{NetworkInstance: &spb.FlushRequest_All{All: &spb.Empty{}}, Election: &spb.FlushRequest_Id{Id: uint128(id)}}); ferr != nil {
+		fail("a Flush of all instances by the new primary failed: " + ferr.Error())
+	}
+	if left := readAll("after the probe's Flush"); len(left) != 0 {
+		fail(fmt.Sprintf("entries left after a Flush of all instances that was answered OK: %v", len(left)))
+	}
+	mc.CloseSend()
+	simrt.AwaitQuiescence("service-probe-end")
+	e.probe("service probe completed")
+}
